@@ -1335,6 +1335,7 @@ def bchr(n: int) -> bytes:
 DUMPFORMAT_VERSION = bchr(2)
 
 FOUR_BYTE_INT_MAX = 2147483647
+FOUR_BYTE_INT_MIN = -2147483648
 
 FLOAT_FORMAT = "!d"
 FLOAT_FORMAT_SIZE = struct.calcsize(FLOAT_FORMAT)
@@ -1691,7 +1692,7 @@ class _Serializer:
         self._write(bytes_)
 
     def _save_integral(self, i: int, short_op: bytes, long_op: bytes) -> None:
-        if i <= FOUR_BYTE_INT_MAX:
+        if FOUR_BYTE_INT_MIN <= i <= FOUR_BYTE_INT_MAX:
             self._write(short_op)
             self._write_int4(i)
         else:
